@@ -56,6 +56,23 @@ func (g *G) boundaryPositions(n int, extra int) []int {
 	return r
 }
 
+// largeWords draws a long bitmap: dense (many more than 2^16 one-bits), with some empty stretches
+func (g *G) largeWords(n int, variant int) []uint64 {
+	ws := make([]uint64, n)
+	for i := range ws {
+		switch {
+		case variant%3 == 0:
+			ws[i] = ^uint64(0)
+		case i%97 < 5:
+			ws[i] = 0
+		default:
+			ws[i] = g.r.Uint64() | g.r.Uint64()
+		}
+	}
+	ws[g.intn(n)] = 0
+	return ws
+}
+
 func init() {
 	gens["C01"] = func(g *G) {
 		// exhaustive small scope: all bitmaps of <= 2 words over a 7-word alphabet x all positions
@@ -81,6 +98,21 @@ func init() {
 				g.emit("idxrank128 %s", s)
 				for _, i := range g.boundaryPositions(64*l, 12) {
 					g.emit("rank64 %s %d %d", s, rep%2, i)
+					g.emit("rank128 %s %d", s, i)
+				}
+			}
+		}
+		// large bitmaps: more than 2^16 bits and more than 2^16 one-bits (the naive specification is not
+		// evaluated at this size; the model, proved equal to it, decides)
+		for _, l := range []int{1030, 2101} {
+			for rep := 0; rep < g.n(1, 3); rep++ {
+				ws := g.largeWords(l, rep)
+				s := showU64s(ws)
+				g.emit("idxrank64 %s 1", s)
+				g.emit("idxrank128 %s", s)
+				for k := 0; k < g.n(24, 200); k++ {
+					i := []int{64*l - 1, 64*l - 64, 65535, 65536, 65537, 64*l - 65, g.intn(64 * l), g.intn(64 * l)}[k%8]
+					g.emit("rank64 %s %d %d", s, k%2, i)
 					g.emit("rank128 %s %d", s, i)
 				}
 			}
@@ -157,6 +189,27 @@ func init() {
 				}
 			}
 		}
+		// large bitmaps: more than 2^16 one-bits
+		for _, l := range []int{1030, 2101} {
+			if l > 2000 && !g.thorough() {
+				continue
+			}
+			for rep := 0; rep < g.n(1, 3); rep++ {
+				ws := g.largeWords(l, rep)
+				n := popcount(ws)
+				s := showU64s(ws)
+				g.emit("idxsel32 %s", s)
+				g.emit("idxsel32r64 %s", s)
+				for k := 0; k < g.n(8, 64) && n > 0; k++ {
+					i := []int{n - 1, n - 2, 65535, 65536, 32767, 32768, g.intn(n), g.intn(n)}[k%8]
+					if i < 0 || i >= n {
+						i = g.intn(n)
+					}
+					g.emit("sel32 %s %d", s, i)
+					g.emit("sel32r64 %s %d", s, i)
+				}
+			}
+		}
 	}
 
 	gens["C13"] = func(g *G) {
@@ -198,6 +251,25 @@ func init() {
 					g.emit("nextone %s %d %d", s, i, e)
 					if e >= 1 {
 						g.emit("prevone %s %d %d", s, i, e)
+					}
+				}
+			}
+		}
+		// long scans: more than 1024 empty words between the query and the answer
+		for rep := 0; rep < g.n(2, 8); rep++ {
+			l := 1100 + g.intn(1200)
+			ws := make([]uint64, l)
+			a, b := g.intn(3), l-1-g.intn(3)
+			ws[a] = 1 << uint(g.intn(64))
+			ws[b] = 1 << uint(g.intn(64))
+			s := showU64s(ws)
+			for _, i := range []int{0, 64*a + 63, 64 * (a + 1), 64*(a+1) + 1, 70000} {
+				for _, e := range []int{64 * l, 64*l - 1, 64 * b, 64*b + 1, 65536, 65537} {
+					if i <= e && i < 64*l {
+						g.emit("nextone %s %d %d", s, i, e)
+						if e >= 1 {
+							g.emit("prevone %s %d %d", s, i, e)
+						}
 					}
 				}
 			}
@@ -249,6 +321,20 @@ func init() {
 			}
 		}
 		g.emit("slice 255,255 3 70")
+		for _, w := range []int{1, 8, 64} {
+			vs := make([]uint64, 70000/w+3)
+			for i := range vs {
+				vs[i] = g.word()
+			}
+			g.emit("join %s %d", showU64s(vs), w)
+		}
+		big := g.largeWords(1100, 1)
+		for _, ft := range [][2]int{{0, 70400}, {63, 70000}, {65535, 65537}, {65536, 70400}, {1, 70399}} {
+			g.emit("slice %s %d %d", showU64s(big), ft[0], ft[1])
+		}
+		for _, iw := range [][2]int{{1099, 64}, {2199, 32}, {70399, 1}, {65536, 1}, {8192, 8}} {
+			g.emit("getw %s %d %d", showU64s(big), iw[0], iw[1])
+		}
 	}
 
 	gens["C12"] = func(g *G) {
@@ -273,6 +359,7 @@ func init() {
 			}
 			posLists = append(posLists, l)
 		}
+		posLists = append(posLists, []int32{0, 65535, 65536, 131071, 200000}, []int32{1 << 20})
 		for _, ps := range posLists {
 			s := showI32s(ps)
 			last := int32(-1)
@@ -440,6 +527,10 @@ func init() {
 			}
 			ops = append(ops, "o", fmt.Sprintf("h%d", far), fmt.Sprintf("g%d", far), fmt.Sprintf("h%d", far-1), fmt.Sprintf("g%d", o), "c", "o", fmt.Sprintf("h%d", far))
 			g.emit("tb %d %d %s", o, thr, strings.Join(ops, ","))
+		}
+		// large offsets (int64 positions)
+		for _, o := range []int64{1 << 32, 1 << 40, 1<<62 - 64} {
+			g.emit("tb %d 128 s%d,F%d:%d,o,h%d,g%d,h%d,h%d,s%d,o,c,o,h%d", o, o+700, o, o+128, o+700, o+700, o-1, o+127, o+128, o+699)
 		}
 		// the real reclaim threshold (1024 words) crossed front-to-back and back-to-front
 		g.emit("tb 0 65536 f0:65600,o,h5,h65599,s65700,o,h65600,h65700,c,o")
